@@ -126,7 +126,7 @@ macro "tr_eval" "[" ts:Lean.Parser.Tactic.simpLemma,* "]" : tactic =>
       truthy_dict, truthy_set, truthy_obj, truthy_ref, truthy_nint, St.setAttr, St.setLocal, St.bindOpt, Store.get,
       Store.set, Store.del, get_set, bind, Res.bind, pure, unsupported,
       valLe, valMax, valField, isInstanceAny, setElems, valGetD, starElems, doEmitR, runReenter, Val.toInt?, Val.ofInt,
-      valSlice, valStartswith, isPseudoExc, envT_raises, envT_reenter, envT_ext, ext_be_decode, ext_be_fixed, ext_box,
+      valSliceT, valStartswithT, isPseudoExcT, envT_raises, envT_reenter, envT_ext, ext_be_decode, ext_be_fixed, ext_box,
       ext_encrypt, ext_decrypt, ext_strmod, ext_deferred, ext_fstr, isFStr, tbl_Connection,
       $ts,*])
 
@@ -196,7 +196,7 @@ macro "tr_eval_nc" "[" ts:Lean.Parser.Tactic.simpLemma,* "]" : tactic =>
       truthy_dict, truthy_set, truthy_obj, truthy_ref, truthy_nint, St.setAttr, St.setLocal, St.bindOpt, Store.get,
       Store.set, Store.del, get_set, bind, Res.bind, pure, unsupported,
       valLe, valMax, valField, isInstanceAny, setElems, valGetD, starElems, doEmitR, runReenter, Val.toInt?, Val.ofInt,
-      valSlice, valStartswith, isPseudoExc, envT_raises, envT_reenter, envT_ext, ext_be_decode, ext_be_fixed, ext_box,
+      valSliceT, valStartswithT, isPseudoExcT, envT_raises, envT_reenter, envT_ext, ext_be_decode, ext_be_fixed, ext_box,
       ext_encrypt, ext_decrypt, ext_strmod, ext_deferred, ext_fstr, isFStr,
       $ts,*])
 
